@@ -174,10 +174,14 @@ func runSeq(r *harness.Run, c seqCase) error {
 			if len(s.Auth) == 0 || s.Auth[0] != "$"+s.Room[1:] {
 				return fmt.Errorf("%s: v12 event does not report the create event first among its auth events: %v", where, s.Auth)
 			}
+			protoNamesCreate := false
+			for _, a := range c.Proto.Auth {
+				protoNamesCreate = protoNamesCreate || a == "$"+s.Room[1:]
+			}
 			stored := evgen.Get(js, "auth_events")
 			for _, e := range stored.Elems {
-				if e.Str == "$"+s.Room[1:] && len(c.Proto.Auth) > 0 && c.Proto.Auth[0] != e.Str {
-					return fmt.Errorf("%s: stored auth_events contain the create event", where)
+				if e.Str == "$"+s.Room[1:] && !protoNamesCreate {
+					return fmt.Errorf("%s: stored auth_events contain the create event although the proto-event did not list it", where)
 				}
 			}
 		}
